@@ -38,6 +38,10 @@ pub fn run(c: &Case, rep: &mut Report) {
         }
     }
     let mut pairs_checked = 0u64;
+    let loc_shift: usize = if end.num("cfg").map(|c| c & 128 != 0).unwrap_or(false) { 1_000_000 } else { 0 };
+    if loc_shift > 0 {
+        rep.count("cases-with-an-on_instr_loc-callback", 1);
+    }
     for label in ["emit", "gc"] {
         let out = match end.get(&format!("out.{}", label)) {
             Some(o) => o,
@@ -140,6 +144,19 @@ pub fn run(c: &Case, rep: &mut Report) {
             let (a, b) = match (it.next().and_then(|x| x.parse::<usize>().ok()), it.next().and_then(|x| x.parse::<usize>().ok())) {
                 (Some(a), Some(b)) => (a, b),
                 _ => continue,
+            };
+            // with an (injective) on_instr_loc callback the first component is what the callback returned for
+            // the input offset: offset + 1_000_000 in the harness's configuration bit 128
+            let a = if loc_shift > 0 {
+                match a.checked_sub(loc_shift) {
+                    Some(x) => x,
+                    None => {
+                        rep.violation(c, "C11/pair-id-is-not-what-the-on_instr_loc-callback-returned", &format!("{}: pair ({}, {})", label, a, b), &blob);
+                        continue;
+                    }
+                }
+            } else {
+                a
             };
             n += 1;
             pairs_checked += 1;
